@@ -271,6 +271,7 @@ func mayAuth(c *Conn) bool {
 //@   requires tag != ""
 //@   ensures err == nil ==> __ghost("tagged") == old(__ghost("tagged"))+1
 //@   ensures err != nil ==> __ghost("tagged") == old(__ghost("tagged")) || __failed("Conn.writeCapabilityStatus")
+//@   ensures err != nil ==> __ghost("tagged") == old(__ghost("tagged")) || __ghost("tagged") == old(__ghost("tagged"))+1
 //@   ensures c.state == old(c.state) || (old(mayAuth(c)) && c.state == imap.ConnStateAuthenticated)
 //@   ensures c.state != old(c.state) ==> __called("Session.Login") && !__failed("Session.Login")
 
@@ -279,6 +280,7 @@ func mayAuth(c *Conn) bool {
 //@   requires tag != ""
 //@   ensures err == nil ==> __ghost("tagged") == old(__ghost("tagged"))+1
 //@   ensures err != nil ==> __ghost("tagged") == old(__ghost("tagged")) || __failed("writeCapabilityOK")
+//@   ensures err != nil ==> __ghost("tagged") == old(__ghost("tagged")) || __ghost("tagged") == old(__ghost("tagged"))+1
 //@   ensures c.state == old(c.state) || (old(mayAuth(c)) && c.state == imap.ConnStateAuthenticated)
 //@   ensures c.state != old(c.state) ==> __called("Server.Next") && !__failed("Server.Next")
 
@@ -291,6 +293,7 @@ func mayAuth(c *Conn) bool {
 //@   requires tag != ""
 //@   ensures err == nil ==> __ghost("tagged") == old(__ghost("tagged"))+1
 //@   ensures err != nil ==> __ghost("tagged") == old(__ghost("tagged")) || __failed("Conn.writeStatusResp")
+//@   ensures err != nil ==> __ghost("tagged") == old(__ghost("tagged")) || __ghost("tagged") == old(__ghost("tagged"))+1
 //@   ensures c.state == old(c.state) || (old(authed(c)) && (c.state == imap.ConnStateSelected || c.state == imap.ConnStateAuthenticated))
 //@   ensures __called("Session.Select") && __failed("Session.Select") ==> c.state == imap.ConnStateAuthenticated
 //@   ensures c.state == imap.ConnStateSelected && !(__called("Session.Select") && !__failed("Session.Select")) ==> old(c.state) == imap.ConnStateSelected && (!__called("Session.Unselect") || __failed("Session.Unselect"))
@@ -340,6 +343,7 @@ func isStartTLSConn(conn net.Conn) bool {
 //@   requires tag != ""
 //@   ensures err == nil ==> __ghost("tagged") == old(__ghost("tagged"))+1
 //@   ensures err != nil ==> __ghost("tagged") == old(__ghost("tagged")) || __failed("writeStatusResp")
+//@   ensures err != nil ==> __ghost("tagged") == old(__ghost("tagged")) || __ghost("tagged") == old(__ghost("tagged"))+1
 //@   panics assumed-unreachable io.CopyN of exactly Buffered() bytes from a bufio.Reader into a bytes.Buffer cannot fail (stdlib contract)
 //@   ensures c.state == old(c.state)
 
@@ -417,6 +421,7 @@ func isStartTLSConn(conn net.Conn) bool {
 //@   requires tag != ""
 //@   ensures err == nil ==> __ghost("tagged") == old(__ghost("tagged"))+1
 //@   ensures err != nil ==> __ghost("tagged") == old(__ghost("tagged")) || __failed("Conn.writeAppendOK")
+//@   ensures err != nil ==> __ghost("tagged") == old(__ghost("tagged")) || __ghost("tagged") == old(__ghost("tagged"))+1
 //@   ensures c.state == old(c.state)
 //@   ensures __called("Conn.acceptLiteral") && !__failed("Conn.acceptLiteral") ==> __called("Copy")
 //@   ensures err == nil ==> __called("Decoder.ExpectCRLF") && !__failed("Session.Append")
@@ -426,6 +431,7 @@ func isStartTLSConn(conn net.Conn) bool {
 //@   requires tag != ""
 //@   ensures err == nil ==> __ghost("tagged") == old(__ghost("tagged"))+1
 //@   ensures err != nil ==> __ghost("tagged") == old(__ghost("tagged")) || __failed("Conn.writeCopyOK")
+//@   ensures err != nil ==> __ghost("tagged") == old(__ghost("tagged")) || __ghost("tagged") == old(__ghost("tagged"))+1
 //@   ensures c.state == old(c.state)
 
 // tagHandlerFailed: one of the handlers that send their own tagged completion
